@@ -25,6 +25,9 @@ use crate::{engine::catch, galloc};
 
 pub const MAX_THREADS: usize = 16;
 
+/// When set, bench-mode runs are also painted (captured in `LoopOutcome::painted`).
+pub static PAINT: std::sync::atomic::AtomicBool = std::sync::atomic::AtomicBool::new(false);
+
 // ---------------------------------------------------------------------------
 // Case description
 
@@ -157,6 +160,14 @@ pub enum AllocStep {
 
 #[derive(Clone, Debug, Default, PartialEq, Eq, Serialize, Deserialize)]
 pub struct AllocScripts {
+    /// If non-zero, the `benched` script only runs during the first N calls
+    /// of each thread (lazy initialisation, amortised growth).
+    #[serde(default)]
+    pub benched_first_calls: u32,
+    /// If set, the sizes of the `benched` script are multiplied by
+    /// 1 + (call index mod 5), so that samples differ.
+    #[serde(default)]
+    pub benched_vary: bool,
     pub gen: Vec<AllocStep>,
     pub benched: Vec<AllocStep>,
     pub drop_out: Vec<AllocStep>,
@@ -329,10 +340,19 @@ fn with_state<R>(f: impl FnOnce(&World, &mut ThreadState, usize) -> R) -> Option
     Some(f(world, state, t))
 }
 
+/// Events per thread after which a run is abandoned as a runaway (the process
+/// exits with `BUDGET_EXIT`; the orchestrator reports it as inconclusive).
+pub const LOG_CAP: usize = 1_500_000;
+pub const BUDGET_EXIT: i32 = 87;
+
 fn log(ev: Ev) {
     galloc::internal(|| {
         with_state(|w, st, _| {
             let seq = w.seq.fetch_add(1, SeqCst);
+            if st.log.len() >= LOG_CAP {
+                eprintln!("vcheck: event budget exhausted (runaway run); case: {:?}", w.case);
+                std::process::exit(BUDGET_EXIT);
+            }
             st.log.push(Event { ev, seq, clock: st.clock });
         });
     });
@@ -384,7 +404,26 @@ fn run_alloc_script(pick: fn(&AllocScripts) -> &Vec<AllocStep>) {
     if steps.is_empty() {
         return;
     }
+    let is_benched = std::ptr::eq(steps, &world.case.allocs.benched);
+    let mut factor = 1u32;
+    if is_benched {
+        // `calls` was already incremented for the call in progress.
+        let call_index = with_state(|_, st, _| st.calls.saturating_sub(1)).unwrap_or(0);
+        let first = world.case.allocs.benched_first_calls;
+        if first != 0 && call_index >= first as u64 {
+            return;
+        }
+        if world.case.allocs.benched_vary {
+            factor = 1 + (call_index % 5) as u32;
+        }
+    }
     for &step in steps {
+        let step = match step {
+            AllocStep::Alloc(s) => AllocStep::Alloc(s.saturating_mul(factor)),
+            AllocStep::AllocZeroed(s) => AllocStep::AllocZeroed(s.saturating_mul(factor)),
+            AllocStep::Realloc(s) => AllocStep::Realloc(s.saturating_mul(factor)),
+            AllocStep::Dealloc => AllocStep::Dealloc,
+        };
         match step {
             AllocStep::Alloc(size) | AllocStep::AllocZeroed(size) => {
                 let layout = Layout::from_size_align(size as usize, 8).unwrap();
@@ -727,6 +766,8 @@ pub struct LoopOutcome {
     pub view: RunView,
     /// `compute_stats()` (bench mode, after a run that did not panic).
     pub stats: Option<Result<StatsView, String>>,
+    /// The painted leaf row(s), if `PAINT` was set.
+    pub painted: Option<String>,
     /// Event log per logical thread.
     pub logs: Vec<Vec<Event>>,
     pub stray_events: u64,
@@ -768,6 +809,7 @@ pub fn run_loop_with(c: &LoopCase, wrap: impl FnOnce(&mut dyn FnMut())) -> LoopO
     let options = c.options();
     let mut outcome_view = RunView::default();
     let mut stats = None;
+    let mut painted = None;
     let mut result: Result<(), String> = Ok(());
     {
         let ctx = BenchCtx::new(if c.test_mode { VAction::Test } else { VAction::Bench }, Some(c.frequency.max(1)));
@@ -777,6 +819,10 @@ pub fn run_loop_with(c: &LoopCase, wrap: impl FnOnce(&mut dyn FnMut())) -> LoopO
             outcome_view = run.view();
             if result.is_ok() && !c.test_mode {
                 stats = Some(catch(|| run.compute_stats()));
+                if PAINT.load(SeqCst) && matches!(stats, Some(Ok(_))) {
+                    let (_, text) = crate::capture::stdout(|| run.paint_leaf("bench", true, 12, false));
+                    painted = Some(text);
+                }
             }
         };
         wrap(&mut body);
@@ -804,5 +850,5 @@ pub fn run_loop_with(c: &LoopCase, wrap: impl FnOnce(&mut dyn FnMut())) -> LoopO
     while logs.len() > 1 && logs.last().map(|l| l.is_empty()).unwrap_or(false) {
         logs.pop();
     }
-    LoopOutcome { result, view: outcome_view, stats, logs, stray_events: stray }
+    LoopOutcome { result, view: outcome_view, stats, painted, logs, stray_events: stray }
 }
